@@ -8,6 +8,7 @@ import (
 	"fmt"
 	"io"
 	"math/big"
+	"runtime"
 	"sort"
 	"strings"
 
@@ -78,6 +79,19 @@ func dbFatal(c *ctx) {
 	if r := recover(); r != nil {
 		if s, ok := r.(string); ok && strings.HasPrefix(s, "logger.Fatal") {
 			c.fail("C14/db/fatal", "rawdb accessor aborted on a value it wrote itself: %v", r)
+			return
+		}
+		panic(r)
+	}
+}
+
+// codePanic (deferred at the top of every case) reports a Go runtime panic raised by the code
+// under test - or by an accessor applied to an object a decoder returned - as a violation;
+// rapid's own control-flow panics pass through.
+func codePanic(c *ctx) {
+	if r := recover(); r != nil {
+		if re, ok := r.(runtime.Error); ok {
+			c.fail("C14/"+c.part+"/runtime-panic", "runtime panic while encoding/decoding/inspecting a well-formed object: %v", re)
 			return
 		}
 		panic(r)
@@ -240,6 +254,35 @@ func (d *diff) fields() string {
 	return strings.Join(sortedKeys(seen), "+")
 }
 func (d *diff) ok() bool { return len(d.l) == 0 }
+
+// dropDerived removes the derived-hash entries ("...Hash()"), keeping the field differences.
+func (d *diff) dropDerived() {
+	var keep []string
+	for _, s := range d.l {
+		if !strings.HasSuffix(s[:strings.Index(s, ":")], "()") {
+			keep = append(keep, s)
+		}
+	}
+	d.l = keep
+}
+
+// dropFields removes the entries of the named field paths (as rendered by fields()).
+func (d *diff) dropFields(names ...string) {
+	var keep []string
+	for _, s := range d.l {
+		f := s[:strings.Index(s, ":")]
+		drop := false
+		for _, n := range names {
+			if f == n || strings.HasSuffix(f, "."+n) || strings.HasSuffix(f, "]"+n) {
+				drop = true
+			}
+		}
+		if !drop {
+			keep = append(keep, s)
+		}
+	}
+	d.l = keep
+}
 
 func (d *diff) accessList(field string, a, b types.AccessList) {
 	if len(a) != len(b) {
